@@ -114,7 +114,8 @@ fn families(thorough: bool) -> Vec<Fam> {
 	if thorough {
 		f.push(Fam::Nodes(4));
 	}
-	f.extend([Fam::Decor, Fam::Decor2, Fam::Shapes, Fam::NearMiss, Fam::Prefix, Fam::Nest]);
+	// the unmodified seeds (family prefix) come before their near-miss edits, so that the first reported case of a class is the smallest
+	f.extend([Fam::Decor, Fam::Decor2, Fam::Prefix, Fam::Shapes, Fam::NearMiss, Fam::Nest]);
 	f
 }
 
@@ -138,9 +139,12 @@ fn machinery(msg: &str) -> ! {
 
 /// A panic raised by the harness itself to report a verdict carries a marker; everything else is a panic of the crate.
 fn classify_panic(message: &str) -> (&'static str, String) {
-	match message.strip_prefix(ops::VERDICT_RUNAWAY) {
-		Some(rest) => ("runaway-output", rest.to_owned()),
-		None => ("panic", format!("panicked: {message}")),
+	if let Some(rest) = message.strip_prefix(ops::VERDICT_RUNAWAY) {
+		("runaway-output", rest.to_owned())
+	} else if let Some(rest) = message.strip_prefix(ops::VERDICT_DANGLING) {
+		("dangling-key-after-parse", rest.to_owned())
+	} else {
+		("panic", format!("panicked: {message}"))
 	}
 }
 
@@ -196,10 +200,10 @@ pub fn run(rep: &mut Report) {
 		 (a) node vectors through SchemaMut::from_nodes: every vector of 0..={} nodes over the shape alphabet (Int, Null, Array/Map with every key, Union and Record with 0, 1 and 2 keys, Enum, Fixed; keys = every in-range index, len, len+1, usize::MAX, 1<<63, (1<<63)|1; two-key nodes: all in-range pairs plus a dangling key in either position{}), \
 		 plus 'decor': every node kind x every logical type incl. wrong ones (decimal scale {{0,1,28,29,u32::MAX}} x precision {{0,1,usize::MAX}}, unknown names) x names {{\"\", \".\", \"a.\", \".a\", \"a..b\", \"é.é\", '\"', a.b, X, ns.X}} x fixed sizes {{0,1,12,16,17,usize::MAX}} x enum symbol lists x record field-name lists, as root / under a union (shared) / under a namespaced record / as array items, plus 'decor2': pairs of decorated nodes under one union and one record; \
 		 operations per vector: Debug, serde_json::to_string, canonical_form_rabin_fingerprint, freeze; when freeze is Ok: Debug/json/fingerprint of the Schema, 11 hostile byte strings (incl. 16 KiB runs of 0x02 and 0x00 that drive unbounded descent) x 6 deserialize hints from a slice + 2 reader runs, 41 presentations serialized, the crate's own outputs decoded again. \
-		 (b) texts through str::parse::<SchemaMut>() (then the same operations) and str::parse::<Schema>(): JSON shapes to depth {} over 12 atoms at the 11 attribute positions the parser reads and 9 wrappers, near-miss documents (every value position of 20 seed schemas replaced by {} shapes, deleted, duplicated), every prefix of the 20 seeds, 24 odd documents, 8 nesting patterns x depths 1..=200{}. \
+		 (b) texts through str::parse::<SchemaMut>() (then the same operations) and str::parse::<Schema>(): JSON shapes to depth {} over 12 atoms at the 11 attribute positions the parser reads and 9 wrappers, near-miss documents (every value position of 30 seed schemas (10 of them with forward references in various positions) replaced by {} shapes, deleted, duplicated), every prefix of the 30 seeds, 26 odd documents, 8 nesting patterns x depths 1..=200{}. \
 		 (c) scaling ladders, every rung executed in order and a ladder stopped at its first timeout: diamond chains n=1..=64 (text by nesting, text by forward reference, builder), reference chains and array chains of n in {:?} (text and builder), wide records/unions/enums of n in {:?} (text and builder). \
 		 Oracle: every operation returns Ok or Err within the horizon; a panic, a death by signal or a timeout is a violation attributed to the single (case, operation) by the runner's cursor and confirmed by re-running that operation alone. \
-		 Non-trivial: node vectors that are empty or contain a dangling key, a cycle, a shared node, a logical type, an unusual name or an extreme parameter, ladder vectors of > 2 nodes; texts other than the 20 unmodified seeds. Distinct on the rendered vector / the text.",
+		 Non-trivial: node vectors that are empty or contain a dangling key, a cycle, a shared node, a logical type, an unusual name or an extreme parameter, ladder vectors of > 2 nodes; texts other than the 30 unmodified seeds. Distinct on the rendered vector / the text.",
 		if thorough { 4 } else { 3 },
 		if thorough { "; 4-node vectors use a reduced alphabet: Int, Fixed, Array with keys {in-range, len}, Map with in-range keys, Union and Record with 0, 1 ({in-range, len}) and 2 (all in-range pairs) keys" } else { "" },
 		if thorough { 3 } else { 2 },
@@ -374,6 +378,7 @@ pub fn run(rep: &mut Report) {
 	rep.extra.insert("known_finding_cases_total".into(), json!(known_totals));
 	rep.extra.insert("families".into(), json!(fam_stats));
 	rep.extra.insert("ladders".into(), json!(ladders));
+	let has_unknown = !unknown.is_empty();
 	let mut kept_classes: BTreeMap<String, u32> = BTreeMap::new();
 	for (v, _) in unknown {
 		let k = kept_classes.entry(v.class.clone()).or_insert(0);
@@ -384,10 +389,19 @@ pub fn run(rep: &mut Report) {
 	}
 	rep.violations.extend(known_kept);
 
-	// ---- vacuity guards
+	// ---- vacuity guards. A guard that is not met is a machinery error — unless unlisted violations are being
+	// reported in this very run: then the guard failure is most likely their consequence (e.g. a valid seed
+	// document that the subject now rejects or panics on), it is printed as a note and the verdict stands.
+	let guard_fail = |msg: &str| {
+		if has_unknown {
+			eprintln!("NOTE (not a machinery error because violations are reported): {msg}");
+		} else {
+			machinery(msg);
+		}
+	};
 	let need = |rep: &Report, k: &str| {
 		if rep.cover.counters.get(k).copied().unwrap_or(0) == 0 {
-			machinery(&format!("vacuity guard: counter {k} is 0 — a behaviour this check relies on was never exercised"));
+			guard_fail(&format!("vacuity guard: counter {k} is 0 — a behaviour this check relies on was never exercised"));
 		}
 	};
 	for k in ["selftest_isolation_layer_passed", "froze_ok_and_used", "use_deserialize_ok_seen", "use_serialize_ok_seen", "recursive_schema_used_deserialize_err_seen", "builder_err_on_vector_with_dangling_key", "json_err_on_unnamed_cycle"] {
@@ -396,15 +410,15 @@ pub fn run(rep: &mut Report) {
 	let stat = |f: &str, k: &str| fam_stats.get(f).and_then(|m| m.get(k)).copied().unwrap_or(0);
 	for f in ["shapes", "nearmiss", "prefix", "nest"] {
 		if stat(f, "parse-mut:Ok") == 0 || stat(f, "parse-mut:Err") == 0 || stat(f, "parse-schema:Ok") == 0 {
-			machinery(&format!("vacuity guard: text family {f} did not see both accepted and rejected documents"));
+			guard_fail(&format!("vacuity guard: text family {f} did not see both accepted and rejected documents"));
 		}
 	}
 	for f in ["nodes-2", "nodes-3", "decor", "decor2"] {
 		if stat(f, "freeze:Ok") == 0 || stat(f, "fingerprint:Ok") == 0 || stat(f, "json:Ok") == 0 || (f != "decor2" && (stat(f, "freeze:Err") == 0 || stat(f, "json:Err") == 0)) {
-			machinery(&format!("vacuity guard: builder family {f} did not see both outcomes of freeze / to_string"));
+			guard_fail(&format!("vacuity guard: builder family {f} did not see both outcomes of freeze / to_string"));
 		}
 	}
-	// the 20 seeds are valid schemas that freeze
+	// the seed documents are valid schemas that freeze
 	{
 		let ctx = &ctxs["prefix"];
 		for (u, r) in all.iter().filter(|(u, _)| u.fam == Fam::Prefix) {
@@ -412,7 +426,7 @@ pub fn run(rep: &mut Report) {
 				if si >= u.lo && si < u.hi {
 					let e = r.table[(si - u.lo) as usize];
 					if e.codes[0] != CODE_OK || e.details[0] & ops::D_FREEZE_OK == 0 || e.codes[1] != CODE_OK {
-						machinery(&format!("vacuity guard: seed document at prefix index {si} is not accepted by the crate"));
+						guard_fail(&format!("vacuity guard: seed document at prefix index {si} is not accepted by the crate"));
 					}
 					rep.cover.count("seed_documents_accepted", 1);
 				}
@@ -425,7 +439,7 @@ pub fn run(rep: &mut Report) {
 		let e = r.table[0];
 		let last = u.fam.nops() - 1;
 		if e.codes[last] != CODE_OK {
-			machinery(&format!("vacuity guard: first rung of ladder {} on {} gave {}", u.fam.name(), u.stack.name(), code_name(e.codes[last])));
+			guard_fail(&format!("vacuity guard: first rung of ladder {} on {} gave {}", u.fam.name(), u.stack.name(), code_name(e.codes[last])));
 		}
 	}
 }
